@@ -41,8 +41,8 @@ func init() {
 	Register(&Rule{ID: "FINDOPTS", Props: []string{"C01", "C10"}, Min: 4,
 		Doc: "all point operations agree on how a search is parameterised: every findOptions is built with targetLayer = min(keyLayer(key, branchFactor), height) and currentHeight = height of the same tree.",
 		Run: runFINDOPTS})
-	Register(&Rule{ID: "DIRTYNEW", Props: []string{"C13"}, Min: 5,
-		Doc: "every node a mutator creates and links (argument of the link constructor Mast.store) is marked dirty on every path: a new node that is not dirty makes the tree report clean although it differs from the persisted version.",
+	Register(&Rule{ID: "DIRTYNEW", Props: []string{"C13"}, Min: 2,
+		Doc: "every node a mutator creates and installs as the tree's root (argument of the link constructor Mast.store whose result is stored into Mast.root: grow, shrink) is marked dirty on every path: a new root that is not dirty makes the tree report clean although it differs from the persisted version. (A fresh child has no source name, so the node store writes it whatever its flag says; it is not demanded there.)",
 		Run: runDIRTYNEW})
 	Register(&Rule{ID: "MASTSHARE", Props: []string{"C11", "C02"}, Min: 1,
 		Doc: "Clone copies the Mast struct by value, so no function may write through a slice or map held in a Mast field (element store, append, copy, map update): clones would share that memory.",
@@ -1149,6 +1149,28 @@ func runDIRTYNEW(c *Ctx) {
 		what := fmt.Sprintf("node %s linked by %s", pathDesc(ir.Sym(x)), ir.FuncName(fn))
 		ok := false
 		why := ""
+		// only a node that can become the tree's root needs the flag: IsDirty reads root.dirty; a fresh child (source
+		// nil) is written by the node store whatever its flag says
+		becomesRoot := false
+		if call, isCall := cs.(*ssa.Call); isCall && call.Referrers() != nil {
+			for _, r := range *call.Referrers() {
+				ex, isEx := r.(*ssa.Extract)
+				if !isEx || ex.Index != 0 {
+					continue
+				}
+				for _, b := range fn.Blocks {
+					for _, ins := range b.Instrs {
+						if _, f, st, isSt := mastFieldStore(ins); isSt && f == "root" && ir.ResolveCell(ir.Strip(st.Val)) == ssa.Value(ex) {
+							becomesRoot = true
+						}
+					}
+				}
+			}
+		}
+		if !becomesRoot {
+			c.OK(pos, what, "becomes a child link only (never the root): the node store writes a fresh node regardless of its dirty flag", true)
+			continue
+		}
 		switch v := ir.ResolveCell(x).(type) {
 		case *ssa.Alloc:
 			ok = ir.MustPass(cs, dirtyTrueStoreOn(v))
